@@ -69,6 +69,12 @@ def run_job(spec, verbose=False):
 
     def on_violation(cex):
         rep = replay(scn, [(s['thread'], s['prims']) for s in cex['steps']], cex['inputs'], cex['kind'])
+        if rep['reproduced'] and hasattr(scn, 'real_replay'):
+            # scenarios on the asyncio model: the schedule replay above ran on threads that emulate the loop;
+            # the violation must also show on the REAL event loop with the counterexample's inputs
+            rep2 = scn.real_replay(cex['inputs'], [(s['thread'], s['prims']) for s in cex['steps']])
+            rep = dict(rep2, model_thread_replay=rep['observed'], ops_replayed=rep.get('ops_replayed'),
+                       ops_scheduled=rep.get('ops_scheduled'))
         out['replays'] += 1
         cex['replay'] = rep
         if not rep['reproduced']:
